@@ -379,6 +379,48 @@ def r_k0_linear(cx):
                       ("%s inverse: the input %s is combined with something else before the division by k_0 (or the false "
                        "origin is not removed first): %s" % (names[0], "easting" if bad[0][0] == "XIN" else "northing",
                                                              mir.show(bad[0][1], maxd=3)[:90]) if bad else ""), cx.where(g.term(bb)["span"]))
+    # constants a constructor (or its helpers) derives from k_0 and stores: proportional to k_0 (`R = k_0 a sqrt(1-es) /
+    # (..)`, `scaled_radius = k_0 a Q`) - k_0 under a square root, squared, or added to something is not a scale factor
+    m = 0
+    for cpath, c in sorted(reg.ctors.items()):
+        names = [x for x in c.names if x in PLANE]
+        if not names or names[0] in K0_EXEMPT:
+            continue
+        mod = cpath.rsplit("::", 1)[0] + "::"
+        for gname in sorted(set(reg.reachable_from([cpath], follow_virtual=False))):
+            if not (gname.startswith(mod) and cx.f.has_fn(gname)) or gname in (c.fwd, c.inv):
+                continue
+            g = cx.f.fn(gname)
+            import keys as K_
+            for (bb, mp, key, val) in K_.inserts_in(cx.f, g):
+                if mp != "real" or val is None or key == "k_0":
+                    continue
+                reads = []
+                mir.walk(val, lambda y: (reads.append(1) if _is_k0_read(mir.strip_refs(y)) else None) or True)
+                if not reads:
+                    continue
+                symtab = {}
+                base = _k0_atom(symtab)
+
+                def atom(t, base=base):
+                    if _is_k0_read(mir.strip_refs(t)):
+                        return "K"
+                    return base(t)
+                r = _rf(val, atom)
+                m += 1
+                hidden = [1 for s_, (nm, tt) in symtab.items() if [1 for y in [tt] if _mentions_k0_read(y)]]
+                ok = False
+                if r is not None and not hidden and {dict(k).get("K", 0) for k in r[1].t} == {0} and \
+                        {dict(k).get("K", 0) for k in r[0].t} <= {0, 1}:
+                    at0 = subst(r[0], {"K": Poly.const(0)})
+                    # proportional to k_0, or a false origin plus something proportional to k_0 (tmerc's `zb`)
+                    ok = at0.is_zero() or at0 == Poly.sym("X0") * r[1] or at0 == Poly.sym("Y0") * r[1]
+                cx.ob("R-K0-LINEAR", "%s/stored/%s" % (names[0], key), ok,
+                      "%s: the stored constant `%s` is proportional to k_0" % (names[0], key) if ok else
+                      "%s stores `%s`, derived from k_0, but not proportional to it (k_0 inside a root or another function, "
+                      "squared, or added to something): k_0 then does not scale the plane coordinates linearly" % (names[0], key),
+                      cx.where(g.term(bb)["span"]))
+    cx.count("R-K0-LINEAR", "stored_constants", m)
     cx.count("R-K0-LINEAR", "judged", n)
 
 
@@ -633,3 +675,77 @@ def t_subscripts(cx):
               "normalize rewrites the subscript spelling %r as %r (expected %r): `lat₂=45` then sets another index and "
               "the last-wins rule overwrites it" % (pat, rep, want), cx.where(f.d["span"]))
     cx.count("T-SUBSCRIPTS", "subscript_rules", n)
+
+
+def _is_k0_read(y):
+    import keys as K_
+    if y[0] == "call" and isinstance(y[1], str) and (y[1].endswith("ParsedParameters::k") or (
+            y[1].endswith("ParsedParameters::real") and len(y[2]) > 1 and K_._const_key(y[2][1]) == "k_0")):
+        return True
+    if y[0] == "proj" and isinstance(y[2], tuple) and y[2][0] == "elem" and len(y[2]) > 2 and isinstance(y[2][2], tuple) and \
+            K_._const_key(y[2][2]) == "k_0":
+        return True
+    if y[0] == "proj" and y[2] == "deref":
+        return _is_k0_read(mir.strip_refs(y[1]))
+    if y[0] == "proj" and isinstance(y[2], tuple) and y[2][0] in ("variant", "f"):
+        b = mir.strip_refs(y[1])
+        if b[0] == "call" and isinstance(b[1], str) and (b[1].endswith("Try>::branch") or b[1].endswith("::unwrap")) and b[2]:
+            return _is_k0_read(mir.strip_refs(b[2][0]))
+        if b[0] == "proj":
+            return _is_k0_read(b)
+    return False
+
+
+def _mentions_k0_read(t):
+    hit = []
+    mir.walk(t, lambda y: (hit.append(1) if _is_k0_read(mir.strip_refs(y)) else None) or True)
+    return bool(hit)
+
+
+@rule("R-BRANCH-AGREE", ["C05", "C06"])
+def r_branch_agree(cx):
+    """Where an ancillary function of the projections chooses between two algebraically equivalent formulas for
+    numerical reasons (`ts`: cos/(1 + sin) for positive, (1 - sin)/cos for non-positive latitudes), the alternatives are
+    the same function: as rational functions of the sine and cosine they are equal modulo sin^2 + cos^2 = 1. A sign
+    slip in the branch that the tests do not visit breaks the projection on one hemisphere only."""
+    from poly import Poly
+    n = 0
+    for name in sorted(cx.f.lib["fns"]):
+        if not name.startswith("math::ancillary::") or "::tests" in name or "{closure" in name:
+            continue
+        f = cx.f.fn(name)
+        if f.nargs < 1 or "(f64, f64)" not in str(f.local_ty(1)):
+            continue
+
+        def atom(t):
+            t = mir.strip_refs(t)
+            if t[0] == "proj" and isinstance(t[2], tuple) and t[2][0] == "f" and mir.strip_refs(t[1]) == ("arg", 1):
+                return "S" if t[2][1] == 0 else "C"
+            return None
+        seen = set()
+        for bb, i, s in f.all_stmts():
+            if s["k"] != "assign":
+                continue
+            v = f.rvalue(s["rv"], (bb, i))
+            phis = []
+            mir.walk(v, lambda y: (phis.append(y) if y[0] == "phi" and isinstance(y[1][0], int) and len(y[2]) == 2 else None) or True)
+            for ph in phis:
+                if ph in seen:
+                    continue
+                seen.add(ph)
+                a, b = _rf(ph[2][0], atom), _rf(ph[2][1], atom)
+                if a is None or b is None:
+                    continue
+                if not (_has_sym(a[0], "S") or _has_sym(a[0], "C") or _has_sym(a[1], "C") or _has_sym(a[1], "S")):
+                    continue
+                n += 1
+                rules = {"C": Poly.const(1) - Poly.sym("S") * Poly.sym("S")}
+                lhs = (a[0] * b[1]).reduce(rules)
+                rhs = (b[0] * a[1]).reduce(rules)
+                ok = lhs == rhs
+                cx.ob("R-BRANCH-AGREE", "%s/branch%d" % (name.rsplit("::", 1)[-1], n - 1), ok,
+                      "%s: the two alternative formulas are equal modulo sin^2 + cos^2 = 1" % name.rsplit("::", 1)[-1] if ok else
+                      "%s chooses between two formulas that are not the same function of (sin, cos): (%s)/(%s) versus (%s)/(%s) - "
+                      "one hemisphere gets another value than the other formula would give" % (
+                          name.rsplit("::", 1)[-1], a[0], a[1], b[0], b[1]), cx.where(s.get("span")))
+    cx.count("R-BRANCH-AGREE", "branch_pairs", n)
